@@ -400,7 +400,10 @@ fn case(rng: &mut Rng, ctx: &mut Ctx) {
         } else if o1.grpc_status.as_deref() == Some("12") {
             ctx.count("observed.unimplemented");
         }
-        if o1.content_type.as_deref() != Some("application/grpc") {
+        // a gRPC answer: `application/grpc`, optionally with a `+format` suffix or parameters (the
+        // protocol's Content-Type grammar); which of these forms is tonic's choice
+        let is_grpc_ct = |c: &str| c.strip_prefix("application/grpc").map(|r| r.is_empty() || r.starts_with('+') || r.starts_with(';')).unwrap_or(false);
+        if !o1.content_type.as_deref().map(is_grpc_ct).unwrap_or(false) {
             ctx.violation("content-type", format!("response content-type {:?}", o1.content_type));
         }
         let hit = !o1.handlers.is_empty();
